@@ -84,3 +84,33 @@ hx_GRsetchunk(int32 riid, HDF_CHUNK_DEF *def, int32 flags)
 {
     return GRsetchunk(riid, *def, flags);
 }
+
+/* VSfpack round trip: unpack a fully interlaced buffer of all listed fields into exact-size per-field
+ * buffers, pack them again into `out`.  Returns 0, or a negative code naming the failing step. */
+int32
+hx_fpack_roundtrip(int32 vs, const char *fields, uint8 *packed, int32 bufsz, int32 nrecs, int32 nfields, uint8 *out)
+{
+    void *ptrs[64];
+    char  names[4096];
+    int32 ret = 0;
+    int   k   = 0;
+    if (nfields > 64 || strlen(fields) >= sizeof names)
+        return -10;
+    strcpy(names, fields);
+    for (char *tok = strtok(names, ","); tok && k < nfields; tok = strtok(NULL, ","), k++) {
+        int32 sz = VSsizeof(vs, tok);
+        if (sz <= 0)
+            return -11;
+        ptrs[k] = malloc((size_t)sz * (size_t)nrecs);
+        memset(ptrs[k], 0x5A, (size_t)sz * (size_t)nrecs);
+    }
+    if (k != nfields)
+        return -12;
+    if (VSfpack(vs, _HDF_VSUNPACK, fields, packed, bufsz, nrecs, fields, ptrs) == FAIL)
+        ret = -13;
+    else if (VSfpack(vs, _HDF_VSPACK, fields, out, bufsz, nrecs, fields, ptrs) == FAIL)
+        ret = -14;
+    for (int i = 0; i < k; i++)
+        free(ptrs[i]);
+    return ret;
+}
